@@ -16,6 +16,13 @@ class Value(object):
         self.h = h
 
 
+NONE_H = 5
+
+
+def returns_none(name_id):
+    return name_id % 7 == 3
+
+
 def combine(name_id, hs):
     acc = 0
     for h in hs:
@@ -49,6 +56,8 @@ class Probe(Command):
             for dep in deps:
                 r = dep.result
                 LOG.append(("consumed", self.result_name, dep.result_name, r is dep._result and dep.is_finished))
-                hs.append(r.h)
+                hs.append(NONE_H if r is None else r.h)
         LOG.append(("exit", self.result_name))
+        if returns_none(int(kwargs["Id"])):
+            return None      # like EEMSWrite: a command whose result is None is finished all the same
         return Value(combine(int(kwargs["Id"]), hs))
